@@ -54,6 +54,8 @@ def reader_population(n, seed, ndims=(2, 3), payloads=("random", "special", "ext
             c["reach"] = ["link_dotdot_decoy", "link_dotdot"][(i // 16) % 2]      # where the path collapses lexically
         if i % 16 == 15:      # binary files kept in a store under other names and linked into the level directories
             c["store"] = ["files", "files+levels"][(i // 16) % 2]
+        if i % 8 == 6:        # foreign files in and beside the plotfile directory, a stale finer level directory
+            c["litter"] = True
         out.append(c)
     return out
 
@@ -70,8 +72,55 @@ def add_reach_store(cs, period=11):
             c["reach"] = ["link_dotdot_decoy", "link_dotdot"][(k // period) % 2]
         elif k % period == 9:
             c["store"] = ["files", "files+levels"][(k // period) % 2]
+        elif k % period in (2, 7):
+            c["litter"] = True
         k += 1
     return cs
+
+
+def add_litter(path):
+    """What else may lie in and beside a plotfile directory without being part of it - the Header and the level
+    headers say what belongs: editor backups and temporary copies of the headers, hidden files, a backup of a
+    binary file, a foreign text file, a stale finer level left by an earlier, deeper run (a copy of the finest
+    level's directory under the next level number), a stale sibling file beside the directory."""
+    import shutil
+    lvdirs = sorted(d for d in os.listdir(path) if os.path.isdir(os.path.join(path, d)))
+    for name, src in (("Header~", "Header"), ("Header.tmp", "Header"), (".Header.swp", None), ("notes.txt", None)):
+        with open(os.path.join(path, name), "wb") as f:
+            f.write(open(os.path.join(path, src), "rb").read()[:-7] + b"garbage\n" if src else b"not a header\n\x00\xff\n")
+    for d in lvdirs:
+        ld = os.path.join(path, d)
+        files = sorted(f for f in os.listdir(ld) if "_D_" in f)
+        with open(os.path.join(ld, "Cell_H~"), "w") as f:
+            f.write("1\n1\n999\n0\n(0 0\n)\n0\n")
+        with open(os.path.join(ld, "Cell_H.bak"), "w") as f:
+            f.write("stale\n")
+        with open(os.path.join(ld, ".nfs0001"), "wb") as f:
+            f.write(b"\x00" * 17)
+        if files:
+            with open(os.path.join(ld, files[0] + ".bak"), "wb") as f:
+                f.write(b"FAB garbage that is no FAB\n" + b"\x01" * 64)
+    # a stale finer level: the directory the next level would have
+    m_ = [d for d in lvdirs if d.rstrip("0123456789") != d]
+    if m_:
+        last = m_[-1]
+        prefix = last.rstrip("0123456789")
+        nxt = os.path.join(path, prefix + str(int(last[len(prefix):]) + 1))
+        if not os.path.exists(nxt):
+            shutil.copytree(os.path.join(path, last), nxt)
+    with open(path + ".old", "w") as f:
+        f.write("a file beside the plotfile directory\n")
+    return path
+
+
+def stale_output(out, src):
+    """the requested output path holds what an earlier, DEEPER run of something else left there: a complete copy
+    of another plotfile (all its levels, files and fields), plus litter"""
+    import shutil
+    shutil.rmtree(out, ignore_errors=True)
+    shutil.copytree(src, out)
+    add_litter(out)
+    return out
 
 
 def to_store(path, level_links=False):
@@ -138,6 +187,8 @@ def build(case, work, name="plt00010"):
         for d in (path, path + "_store", path + "_bulk", os.path.join(work, "archive"), os.path.join(work, "runs")):
             shutil.rmtree(d, ignore_errors=True)
     gen.write_plotfile(m, path, **case.get("fmt", {}))
+    if case.get("litter"):
+        add_litter(path)
     if case.get("store"):
         to_store(path, level_links="levels" in case["store"])
     if case.get("reach"):
